@@ -13,6 +13,7 @@ import SeataModel.Driver.C08
 import SeataModel.Driver.C06
 import SeataModel.Driver.C05
 import SeataModel.Driver.AT
+import SeataModel.Driver.C03
 import SeataModel.Driver.C02
 
 open Seata.Driver
@@ -30,7 +31,8 @@ def dispatch (prop : String) (ws : List String) : String :=
   | "C06" => C06.handle ws
   | "C05" => C05.handle ws
   | "C02" => C02.handle ws
-  | "C01" | "C09" | "C10" | "C18" | "C03" => Seata.Driver.AT.handle ws
+  | "C01" | "C09" | "C10" | "C18" => Seata.Driver.AT.handle ws
+  | "C03" => Seata.Driver.C03.handle ws
   | _ => "bad-prop"
 
 partial def loop (hin : IO.FS.Stream) (hout : IO.FS.Stream) : IO Unit := do
